@@ -112,6 +112,18 @@ def _base(kind, a, b):
                     return
                 yield x
         return Iter(f, sentinel=SENT), ref
+    if kind == 4:
+        # an explicit sentinel AND a STOP produced by the sub-spec: whichever comes first ends the stream (SKIP still skips)
+        f = lambda x: SENT if x == a else (STOP if x == b else (SKIP if x == a + b else x))
+
+        def ref4(xs):
+            for x in xs:
+                if x == a or x == b:
+                    return
+                if x == a + b:
+                    continue
+                yield x
+        return Iter(f, sentinel=SENT), ref4
     # sentinel given as a plain value that occurs in the stream
     def ref3(xs):
         for x in xs:
@@ -391,10 +403,10 @@ def obligations(tier):
     L = 3 if q else 4
     obs = []
     rng = 'len(xs) <= %d' % L
-    for base in range(4):
-        if base == 1:
+    for base in range(5):
+        if base in (1, 4):
             for c0 in range(NST):
-                obs.append(Ob(pipe1, fixed={'base': base, 'c0': c0}, pre=rng, name='pipe1_b1_%s' % STAGE_NAMES[c0]))
+                obs.append(Ob(pipe1, fixed={'base': base, 'c0': c0}, pre=rng, name='pipe1_b%d_%s' % (base, STAGE_NAMES[c0])))
             continue
         obs.append(Ob(pipe1, fixed={'base': base}, pre='0 <= c0 < %d and %s' % (NST, rng), name='pipe1_b%d' % base))
     for c0 in range(NST):
